@@ -22,7 +22,8 @@ from .hublib import _any, _all
 class Ctx:
     def __init__(self):
         def keep(n):
-            return n.startswith(("run_delta", "run_patch")) or n == "validate_block_size" or n.startswith("validate_block_size::")
+            # run_delta / run_patch and every other function of the crate root (helpers they may call, e.g. validate_block_size)
+            return n.startswith(("run_delta", "run_patch")) or re.match(r"^[a-z_][a-z_0-9]*($|::\{)", n) is not None
         self.mir, self.mir_path, self.dump_s = env.load("bin", keep)
         self.idx = env.impl_index(self.mir)
         self.enums = env.source_enums()
@@ -77,7 +78,7 @@ def _mk(ctx, what):
         def h(ex_, st, args, dest_ty, func, where):
             ok = ex_.fresh_bool(call + "_ok")
             p_ = fsmodels.path_term(ex_, st, args[0])
-            e = fsmodels.record(ex_, st, call, path=p_, ok=ok)
+            e = fsmodels.record(ex_, st, call, path=p_, ok=ok, flags={k: z3.BoolVal(call == "create" and k in ("create", "truncate", "write")) for k in fsmodels.OO_FLAGS})
             return asyncmodels.ready(fsmodels.io_result(ex_, ok, VStruct("File", [VInt(p_, "usize"), VInt(I(e["seq"]), "usize")])))
         return h
 
@@ -85,10 +86,44 @@ def _mk(ctx, what):
         def h(ex_, st, args, dest_ty, func, where):
             ok = ex_.fresh_bool(name + "_ok")
             e = fsmodels.record(ex_, st, "engine:" + name, path=I(0), ok=ok, args=list(args))
+            if name == "patch":
+                try:
+                    e["out_file"] = fsmodels._file_of(ex_, st, args[-1])
+                except Unsupported:
+                    e["out_file"] = None
             ev["engine_calls"].append(e)
             okval = VStruct("Delta", [VInt(BS, "u32"), VInt(ex_.fresh_int("ss", ty="u64"), "u64"), VInt(ex_.fresh_int("bsz", ty="u64"), "u64"), VSeq(z3.K(z3.IntSort(), I(0)), I(0), ex_.fresh_int("nops", lo=0, hi=8), "u8"), VOpaque("ck")]) if name == "delta" else UNIT
             return asyncmodels.ready(VEnum("Result", simp(z3.If(ok, I(0), I(1))), {0: [okval], 1: [VOpaque("CopiaError")]}))
         return h
+
+    def oo_new(ex_, st, args, dest_ty, func, where):
+        return VStruct("OpenOptions", [VBool(z3.BoolVal(False)) for _ in fsmodels.OO_FLAGS])
+
+    def oo_set(ex_, st, args, dest_ty, func, where):
+        flag = func.rsplit("::", 1)[1]
+        ref = args[0]
+        oo = fsmodels._deep(ex_, st, ref)
+        f = list(oo.f)
+        f[fsmodels.OO_FLAGS.index(flag)] = VBool(args[1].t)
+        ex_.store_ref(st, ref, VStruct("OpenOptions", f))
+        return ref
+
+    def oo_open(ex_, st, args, dest_ty, func, where):
+        oo = fsmodels._deep(ex_, st, args[0])
+        ok = ex_.fresh_bool("open_ok")
+        p_ = fsmodels.path_term(ex_, st, args[1])
+        e = fsmodels.record(ex_, st, "open-options", path=p_, ok=ok, flags={k: oo.f[i].t for i, k in enumerate(fsmodels.OO_FLAGS)})
+        return asyncmodels.ready(fsmodels.io_result(ex_, ok, VStruct("File", [VInt(p_, "usize"), VInt(I(e["seq"]), "usize")])))
+
+    def trename(ex_, st, args, dest_ty, func, where):
+        ok = ex_.fresh_bool("rename_ok")
+        fsmodels.record(ex_, st, "rename", path=fsmodels.path_term(ex_, st, args[0]), to=fsmodels.path_term(ex_, st, args[1]), ok=ok)
+        return asyncmodels.ready(fsmodels.io_result(ex_, ok))
+
+    def tflush(ex_, st, args, dest_ty, func, where):
+        ok = ex_.fresh_bool("flush_ok")
+        fsmodels.record(ex_, st, "flush-file", path=I(0), ok=ok)
+        return asyncmodels.ready(fsmodels.io_result(ex_, ok))
 
     def file_other(ex_, st, args, dest_ty, func, where):
         f = fsmodels._deep(ex_, st, args[0])
@@ -134,11 +169,17 @@ def _mk(ctx, what):
                  (re.compile(r"^tokio::fs::File::open::<"), topen("open"), "tokio File::open (recorded)"),
                  (re.compile(r"^tokio::fs::File::create::<"), topen("create"), "tokio File::create (recorded)"),
                  (re.compile(r"^tokio::fs::write::<"), twrite, "tokio::fs::write (recorded)"),
+                 (re.compile(r"^tokio::fs::OpenOptions::new$"), oo_new, "tokio OpenOptions::new"),
+                 (re.compile(r"^tokio::fs::OpenOptions::(create|truncate|write|read|append|create_new)$"), oo_set, "tokio OpenOptions flag"),
+                 (re.compile(r"^tokio::fs::OpenOptions::open::<"), oo_open, "tokio OpenOptions::open (recorded with its flags)"),
+                 (re.compile(r"^tokio::fs::rename::<"), trename, "tokio::fs::rename (recorded)"),
+                 (re.compile(r"^<(&mut )?tokio::fs::File as (tokio::io::)?AsyncWriteExt>::flush$"), tflush, "File::flush (recorded)"),
+                 (re.compile(r"^std::mem::drop::<"), lambda ex_, st, a, d, f, w: UNIT, "mem::drop"),
                  (re.compile(r"^tokio::fs::File::(set_len|sync_all|sync_data|set_permissions)$"), file_other, "other operations on the output file (recorded)"),
                  (re.compile(r"^AsyncCopiaSync::patch::<"), engine("patch"), "AsyncCopiaSync::patch (summary: any outcome; decided under C05/C01)"),
                  (re.compile(r"^AsyncCopiaSync::delta::<"), engine("delta"), "AsyncCopiaSync::delta (summary)"),
                  (re.compile(r"^(tokio::io::)?BufReader::<tokio::fs::File>::new$"), lambda ex_, st, a, d, f, w: a[0], "BufReader::new"),
-                 (re.compile(r"^<\{async fn body of (tokio::fs::[\w:]+(<.*>)?|AsyncCopiaSync::(patch|delta)<.*>)\(\)\} as (std::future::)?Future>::poll$"), poll_ready, "poll of a ready library future"),
+                 (re.compile(r"^<(\{async fn body of (tokio::fs::[\w:]+(<.*>)?|AsyncCopiaSync::(patch|delta)<.*>)\(\)\}|tokio::io::util::\w+::\w+<'_, .*>) as (std::future::)?Future>::poll$"), poll_ready, "poll of a ready library future"),
                  (re.compile(r"^std::io::_e?print$"), unit, "println!"),
                  (re.compile(r"^Path::display$|^Vec::<DeltaOp>::len$|^Delta::compression_ratio$"), opaque, "reporting plumbing (opaque)"),
                  (re.compile(r"^PathBuf::set_extension::<"), setext, "PathBuf::set_extension (uninterpreted)"),
@@ -165,6 +206,7 @@ def reader_obligation(ctx, R, prover, pid, what):
     if len(others) != 2 or "output" not in caps.values():
         raise Inconclusive("run_%s captures %r, not (two paths, output)" % (what, caps))
     vals[others[0]], vals[others[1]] = VRef("val", val=pathv(A1)), VRef("val", val=pathv(A2))
+    BASIS = A1 if others[0] == "basis" else A2
     st.frames[0] = {"co": VEnum("Coroutine", I(0), {-1: [vals[caps[i]] for i in sorted(caps)]})}
     poll = ex.exec_fn(fn, [VStruct("Pin", [VRef("place", 0, "co")]), VOpaque("Context")], st)
     if poll is None or 0 not in poll.pay:
@@ -180,6 +222,23 @@ def reader_obligation(ctx, R, prover, pid, what):
         goals["the-output-file-is-touched-only-by-creating-it-and-through-AsyncCopiaSync::patch"] = _all(
             z3.Not(e["guard"]) for e in eff if e["call"].startswith("file-op:") or e["call"] == "write-file")
         goals["success-is-reported-only-if-AsyncCopiaSync::patch-reported-success"] = z3.Implies(ok, _any(z3.And(e["guard"], e["ok"]) for e in ev["engine_calls"]))
+        # where the reconstruction lands: the engine writes into a file that STARTS EMPTY, and the output path is that file (or a rename
+        # of it requested after the engine returned Ok)
+        P = z3.If(has_out, OUT, fsmodels.WITHEXT(BASIS, lit_id("patched")))
+        opens = {e["seq"]: e for e in eff if e["call"] in ("create", "open-options")}
+        renames = [e for e in eff if e["call"] == "rename"]
+        conds = []
+        for g in ev["engine_calls"]:
+            of = g.get("out_file")
+            o = opens.get(simp(of.f[1].t).as_long()) if of is not None and z3.is_int_value(simp(of.f[1].t)) else None
+            if o is None:
+                conds.append(z3.Not(g["guard"]))
+                continue
+            fl = o.get("flags", {})
+            empty_start = z3.Or(z3.And(fl.get("create", z3.BoolVal(False)), fl.get("truncate", z3.BoolVal(False))), fl.get("create_new", z3.BoolVal(False)))
+            lands = z3.Or(o["path"] == P, _any(z3.And(r["guard"], r["ok"], r["path"] == o["path"], r["to"] == P, z3.BoolVal(r["seq"] > g["seq"]), g["ok"]) for r in renames))
+            conds.append(z3.Implies(g["guard"], z3.And(empty_start, z3.Implies(ok, lands))))
+        goals["the-engine-writes-into-a-file-that-starts-empty-and-that-file-is-(or-is-renamed-to)-the-output-path"] = z3.And(*conds) if conds else z3.BoolVal(False)
     else:
         goals["success-is-reported-only-if-AsyncCopiaSync::delta-reported-success"] = z3.Implies(ok, _any(z3.And(e["guard"], e["ok"]) for e in ev["engine_calls"]))
 
@@ -195,11 +254,12 @@ def reader_obligation(ctx, R, prover, pid, what):
                             "detail": "`copia %s` on a file whose block size field is %d: %s (%s)" % (what, b, r["how"], prof)}
         if what == "patch":
             for prof in ("dev", "release"):
-                r = cli_case("patch-size", 7, prof)
-                if r.get("bad"):
-                    case = {"fn": "cli_hostile_file", "what": "patch-size", "block_size": 7, "observed": {prof: r}}
-                    return {"confirmed": True, "replay_path": R.save_replay("%s/cli/run_patch" % pid, case), "key": "%s/cli/run_patch/wrong-success" % pid,
-                            "detail": "`copia patch` with source_size enlarged by 7: %s (%s)" % (r["how"], prof)}
+                for w2, label in (("patch-size", "with source_size enlarged by 7"), ("patch-twice", "after a failed patch to the same output")):
+                    r = cli_case(w2, 7, prof)
+                    if r.get("bad"):
+                        case = {"fn": "cli_hostile_file", "what": w2, "block_size": 7, "observed": {prof: r}}
+                        return {"confirmed": True, "replay_path": R.save_replay("%s/cli/run_patch" % pid, case), "key": "%s/cli/run_patch/wrong-success" % pid,
+                                "detail": "`copia patch` %s: %s (%s)" % (label, r["how"], prof)}
         return {"confirmed": False, "detail": "the real `copia %s` reports an error (no crash, no wrong success) on the hostile files tried" % what}
     prover.prove(ex, goals, "%s/cli/run_%s" % (pid, what),
                  "`copia %s`: the file decodes (bincode = contract) to ANY value, in particular any block size (full width); every file operation may fail; "
@@ -232,6 +292,24 @@ def cli_case(what, value, profile):
             b[0:4] = struct.pack("<I", value & 0xFFFFFFFF)
             open(dl, "wb").write(b)
             p = run("patch", basis, dl, "-o", out)
+        elif what == "patch-twice":
+            # a FAILED patch (checksum byte flipped: everything is written, then refused) followed by a valid, SHORTER one to the same output
+            b = bytearray(open(dl, "rb").read())
+            b[-1] ^= 0xFF
+            bad = os.path.join(base, "bad.delta")
+            open(bad, "wb").write(b)
+            p1 = run("patch", basis, bad, "-o", out)
+            short = os.path.join(base, "short")
+            open(short, "wb").write(data[:700])
+            sd = os.path.join(base, "short.delta")
+            if run("delta", short, sig, "-o", sd).returncode != 0:
+                return {"setup_failed": True}
+            p = run("patch", basis, sd, "-o", out)
+            if p1.returncode == 0:
+                return {"bad": True, "how": "a delta whose checksum does not match is applied with exit 0"}
+            if p.returncode == 0 and open(out, "rb").read() != open(short, "rb").read():
+                return {"bad": True, "how": "exit 0 but the %d output bytes are not the %d-byte source (an earlier failed patch left bytes behind)" % (os.path.getsize(out), os.path.getsize(short))}
+            return {"bad": False, "rc": p.returncode}
         else:   # patch-size: enlarge the declared source size; success must mean the output IS the source
             b = bytearray(open(dl, "rb").read())
             (ss,) = struct.unpack("<Q", b[4:12])
@@ -252,7 +330,7 @@ def native_validation(R, pid):
     bad = None
     n = 0
     for prof in ("dev", "release"):
-        for what, vals in (("delta", (3, 0, 1 << 20, 1024)), ("patch", (3, 0, 1 << 20, 1024)), ("patch-size", (7,))):
+        for what, vals in (("delta", (3, 0, 1 << 20, 1024, (1 << 32) | 4096)), ("patch", (3, 0, 1 << 20, 1024)), ("patch-size", (7,)), ("patch-twice", (7,))):
             for v in vals:
                 n += 1
                 r = cli_case(what, v, prof)
